@@ -255,4 +255,30 @@ PROPS['C17'] = {
     'assumptions': ['behavioural equality with the hand-assembled environment is decided by running the real factory-built environment, the hand-assembled one and the model on the same histories'],
 }
 
+def _xproc(seed, tier):
+    from harness import xproc
+
+    return xproc.check(seed, tier)
+
+
+_xproc.__name__ = 'cross_process_hashseed_and_debug'
+
+PROPS['C02'] = {
+    'targets': ['GridVerse.Props.C02'],
+    'theorem_files': [('GridVerse/Props/C02.lean', 'C02_')],
+    'audit_prefix': 'C02_',
+    'families': {
+        'quick': [(ENVM, 'fam_world', 640, 16), (ENVM, 'fam_env_shipped', 84, 16), (ENVM, 'fam_env_random', 320, 16), (RESETM, 'fam_reset_random', 8000, 16), (CORE, 'fam_trans_random', 3000, 16)],
+        'thorough': [(ENVM, 'fam_world', 40000, 16), (ENVM, 'fam_env_shipped', 21 * 100, 16), (ENVM, 'fam_env_random', 16000, 16), (RESETM, 'fam_reset_random', 400000, 16), (CORE, 'fam_trans_random', 100000, 16)],
+    },
+    'extra': [_xproc],
+    'oracle_cases': {'quick': 960, 'thorough': 40000},
+    'trusted_base': [
+        'numpy Generator / default_rng: determinism per seed and independence of distinct generator objects',
+        'CPython hash randomisation as a mechanism is represented (arbitrary set iteration order), not exhibited, by the model; it is exercised by re-running trajectories in interpreter processes with different PYTHONHASHSEED values',
+        'recording generator proxies (harness/recrng.py): every Generator call of every stochastic component is logged and compared with the model request sequence; numpy legacy global state and random.getstate() are snapshotted',
+    ],
+    'assumptions': ['the library-level generator exists before the run (get_gv_rng() creates it lazily; creation is not counted as a perturbation)'],
+}
+
 NOT_CLAIMED = {}
